@@ -105,6 +105,11 @@ def run_tree(case, ctx):
     from pyg_base import tree_items, tree_keys, tree_values, items_to_tree, tree_getitem, tree_update, Dict, dictattr
     from pyg_base._dict import tree_get
     t = codec.dec(case['t'])
+    if case.get('alias'):
+        # the same branch object hangs under two paths of t
+        src, dst = case['alias']
+        if src in t and isinstance(dict.__getitem__(t, src), dict):
+            dict.__setitem__(t, dst, dict.__getitem__(t, src))
     mt = plainify(t)
     s0 = idsnap(t)
     st, items = ctx.call(tree_items, t)
@@ -239,11 +244,15 @@ def gen_case(rng):
                 continue
             seen.add(key)
             if last_wild:
-                r[segs[-1][1:]] = rng.choice([1, 2, 'v', 0.5, 'p'])
+                r[segs[-1][1:]] = rng.choice([1, 2, 'v', 0.5, 'p', 0, '', None, 0.0])
             rows.append(r)
         return {'kind': 'table', 'pattern': '/'.join(segs), 'rows': rows, 'as_dictable': rng.random() < 0.5}
     root = rng.choice(['dict', 'dict', 'Dict', 'dictattr'])
     case = {'kind': 'tree', 't': gen_tree(rng, rng.randint(1, 4), root)}
+    if rng.random() < 0.25:
+        case['alias'] = [rng.choice(KEYS), rng.choice(KEYS + ['f'])]
+        if case['alias'][0] == case['alias'][1]:
+            del case['alias']
     if rng.random() < 0.8:
         case['u'] = gen_tree(rng, rng.randint(1, 4), rng.choice(['dict', 'dict', 'Dict', 'dictattr']))
         if rng.random() < 0.35:
